@@ -259,7 +259,9 @@ def check_case(case):
             {"kind": "inconsistent-annotations-compiled", "clause": bad[0]},
             f"{where}\nthe annotations are inconsistent ({bad[0]}: {bad[1]}) but compile returned C instead of raising:\n{c_text[-1800:]}",
         )
-    if compiled:
+    if compiled and ("gemmini.h" in c_text or "gemm_malloc" in c_text or "gemm_acc_malloc" in c_text):
+        classes.append("non-host-memory(no gcc)")
+    elif compiled:
         ok, err, cmd = syntax_check(c_text, h_text)
         if not ok:
             import re
